@@ -4096,9 +4096,14 @@ class PartitionTreeBuilder:
                 seed=rng,
                 **partition_opts,
             )
+            groups = separate(leaves, membership)
+            if len(groups) == len(leaves):
+                # no two nodes were grouped together -> no progress would be
+                # made, so simply contract all the remaining nodes below
+                break
             leaves = [
                 tree.contract_nodes(group, check=check, optimize=sub_optimize)
-                for group in separate(leaves, membership)
+                for group in groups
             ]
 
         if len(leaves) > 1:
